@@ -37,8 +37,8 @@ func init() {
 func init() {
 	register(&propSpec{
 		ID:         "C09",
-		Rules:      []func(*Ctx){ruleR09a, ruleR08b, ruleR08d, ruleR09b, ruleR09c, ruleR09d, ruleR09f, ruleR19n, func(c *Ctx) { ruleLockPairing(c, "R09e") }},
-		Explain:    "R09a: the C08 effect analysis over every concurrent entry (render, JS generation; for parse/compile entries: package-state writes only) - no shared-memory write means no race among them; R08b: scope-frame freshness typestate; R09b: lexer fields written by the scanner goroutine and touched by the parser are disjoint except the channel; R09c: run closes the channel on every exit; R09d: no goroutine is started on the render path. R08d as under C08. R09e: every mutex locked is unlocked on every returning path. R09f: the methods of every soymsg.Bundle implementation write no shared memory. R19n: no goroutine literal in a loop reads the loop's variables.",
+		Rules:      []func(*Ctx){ruleR09a, ruleR08b, ruleR08d, ruleR09b, ruleR09c, ruleR09d, ruleR09f, ruleR13h, ruleR19n, func(c *Ctx) { ruleLockPairing(c, "R09e") }},
+		Explain:    "R09a: the C08 effect analysis over every concurrent entry (render, JS generation; for parse/compile entries: package-state writes only) - no shared-memory write means no race among them; R08b: scope-frame freshness typestate; R09b: lexer fields written by the scanner goroutine and touched by the parser are disjoint except the channel; R09c: run closes the channel on every exit; R09d: no goroutine is started on the render path. R08d as under C08. R09e: every mutex locked is unlocked on every returning path. R09f: the methods of every soymsg.Bundle implementation write no shared memory. R19n: no goroutine literal in a loop reads the loop's variables. R13h: no goroutine literal of the root package assigns a captured variable.",
 		NotDecided: "schedules as such are not explored; third-party writers, bundles and callbacks; Bundle.recompiler (WatchFiles), which upstream documents as not goroutine-safe.",
 		Assumes:    []string{"absence of shared writes is the sufficient condition for race freedom used here", "VTA call graph (CHA in thorough)", "channel operations synchronise"},
 	})
@@ -47,8 +47,8 @@ func init() {
 func init() {
 	register(&propSpec{
 		ID:         "C12",
-		Rules:      []func(*Ctx){ruleR12, ruleR06a, ruleR19c, ruleR08d, ruleR02e, ruleR02m},
-		Explain:    "R12: error discipline on SSA: every call reachable from Renderer.Execute that writes to an io.Writer-typed operand (Write, io.WriteString, fmt.Fprint*) must have its error tested with the failing branch raising (errorf/panic) or returning it to callers that do; in-memory buffers (*bytes.Buffer by construction) are exempt. R06a: the entry converts the raise into its returned error. Since every failed write raises and emission is sequential, the accepted bytes are a prefix and nil is returned only if every write succeeded. Handling is path-complete: from the write no return is reachable without a branch on the error value. R08d: no buffer pool or other stateful library object in a package variable is used while rendering (leftover bytes of a failed render would precede the next one's output). R02e: a called template runs on its own state (the recover handler positions the error with the entry state's template). R02m: the writer is redirected only to a fresh in-memory buffer, never to a wrapper around the caller's writer (whose flush error could be lost).",
+		Rules:      []func(*Ctx){ruleR12, ruleR06a, ruleR06b, ruleR19c, ruleR08d, ruleR02e, ruleR02m},
+		Explain:    "R12: error discipline on SSA: every call reachable from Renderer.Execute that writes to an io.Writer-typed operand (Write, io.WriteString, fmt.Fprint*) must have its error tested with the failing branch raising (errorf/panic) or returning it to callers that do; in-memory buffers (*bytes.Buffer by construction) are exempt. R06a: the entry converts the raise into its returned error. Since every failed write raises and emission is sequential, the accepted bytes are a prefix and nil is returned only if every write succeeded. Handling is path-complete: from the write no return is reachable without a branch on the error value. R08d: no buffer pool or other stateful library object in a package variable is used while rendering (leftover bytes of a failed render would precede the next one's output). R02e: a called template runs on its own state (the recover handler positions the error with the entry state's template). R02m: the writer is redirected only to a fresh in-memory buffer, never to a wrapper around the caller's writer (whose flush error could be lost). R06b: the recover handler's call tree is guarded against faults (a fault there loses the write error).",
 		NotDecided: "writers that violate the io.Writer contract (short write without error).",
 		Assumes:    []string{"io.Writer contract", "VTA call graph for reachability"},
 	})
@@ -57,8 +57,8 @@ func init() {
 func init() {
 	register(&propSpec{
 		ID:         "C18",
-		Rules:      []func(*Ctx){ruleR18a, ruleR18b, func(c *Ctx) { ruleRunCloses(c, "R18b") }, ruleR05a, ruleR09b},
-		Explain:    "R18a: acquire/release on go/cfg: every function that starts a scanner (calls a function containing the go statement) is covered on every returning path by a deferred drain, or by a draining recover handler plus a call that reads the stream through itemEOF; R18b: the scanner returns its nil state right after an error item or EOF and run closes the channel on every exit; R05a: scanner loops end once input is exhausted, so a drained scanner exits. R09b: the drain decision reads no field the scanner goroutine writes.",
+		Rules:      []func(*Ctx){ruleR18a, ruleR18b, func(c *Ctx) { ruleRunCloses(c, "R18b") }, ruleR05a, ruleR09b, ruleR18c},
+		Explain:    "R18a: acquire/release on go/cfg: every function that starts a scanner (calls a function containing the go statement) is covered on every returning path by a deferred drain, or by a draining recover handler plus a call that reads the stream through itemEOF; R18b: the scanner returns its nil state right after an error item or EOF and run closes the channel on every exit; R05a: scanner loops end once input is exhausted, so a drained scanner exits. R09b: the drain decision reads no field the scanner goroutine writes. R18c: every return after a goroutine literal was started in the root package is preceded by WaitGroup.Wait.",
 		NotDecided: "paths that leave by re-panicking a runtime error (they do not return; outside the property).",
 		Assumes:    []string{"go/cfg control flow", "a receive loop over the item channel until close (drain) lets every pending send complete"},
 	})
@@ -67,8 +67,8 @@ func init() {
 func init() {
 	register(&propSpec{
 		ID:         "C03",
-		Rules:      []func(*Ctx){ruleR03a, ruleR03b, ruleR03c, ruleR03d, ruleR03e, ruleR03f, ruleR03g, ruleR03i, ruleR03j, ruleR10f, ruleR02e},
-		Explain:    "R03a: evalPrint is evaluated (finite-domain, AST) for every autoescape mode x cancel-flag value: unless the mode is off or a directive cancels, every completing path writes through the escaper and none writes raw; R03b: every cancelling PrintDirectives entry is in the language's list, and the HTML-producing / re-encoding ones return only data that passed their escaper (SSA taint from the value parameter to every return); R03c: the escaper's table covers the five characters with references that decode back and contain none of them; R03d: parseAutoescape yields the off mode only for \"false\". R03e: the autoescape mode of a live state is assigned only by the template-level attribute case of the walker; R02e: a called template runs on its own state. R03f: a template is registered with the namespace node of its own file; R03g: every write of the escaper's input is the scan loop's own or guarded by a character-set test naming every escaped character; R03h: the module's escaper wrapper returns exactly what the escaper writes; R10f: message placeholders are merged only on equal complete printed text. R03g also: the escaper's scan advances one byte at a time and examines each; R03i: raw text nodes are built by the parser only. R03j: every returning path of renderBlock has handed the block to the walker.",
+		Rules:      []func(*Ctx){ruleR03a, ruleR03b, ruleR03c, ruleR03d, ruleR03e, ruleR03f, ruleR03g, ruleR03i, ruleR03j, ruleR04r, ruleR10f, ruleR02e},
+		Explain:    "R03a: evalPrint is evaluated (finite-domain, AST) for every autoescape mode x cancel-flag value: unless the mode is off or a directive cancels, every completing path writes through the escaper and none writes raw; R03b: every cancelling PrintDirectives entry is in the language's list, and the HTML-producing / re-encoding ones return only data that passed their escaper (SSA taint from the value parameter to every return); R03c: the escaper's table covers the five characters with references that decode back and contain none of them; R03d: parseAutoescape yields the off mode only for \"false\". R03e: the autoescape mode of a live state is assigned only by the template-level attribute case of the walker; R02e: a called template runs on its own state. R03f: a template is registered with the namespace node of its own file; R03g: every write of the escaper's input is the scan loop's own or guarded by a character-set test naming every escaped character; R03h: the module's escaper wrapper returns exactly what the escaper writes; R10f: message placeholders are merged only on equal complete printed text. R03g also: the escaper's scan advances one byte at a time and examines each; R03i: raw text nodes are built by the parser only. R03j: every returning path of renderBlock has handed the block to the walker. R04r: the generated JavaScript gives markup-adding runtime functions the escaped value.",
 		NotDecided: "index arithmetic inside the escaper loop (which byte ranges are copied); user-registered directives; contextual (attribute/JS/URI-aware) escaping, which this implementation does not provide.",
 		Assumes:    []string{"text/template.HTMLEscapeString, net/url.QueryEscape, text/template.JSEscapeString and encoding/json.Marshal are correct encoders"},
 	})
@@ -77,8 +77,8 @@ func init() {
 func init() {
 	register(&propSpec{
 		ID:         "C06",
-		Rules:      []func(*Ctx){ruleR06a, ruleR06b, ruleR06c, ruleR06d, ruleR06e, ruleR06f, ruleR02e, ruleR05i, ruleR05k, ruleR19h, ruleR06g, ruleR06i, func(c *Ctx) { ruleConstIndexGuards(c, "R06h", "", 0) }},
-		Explain:    "R06a: every exported soyhtml entry that can reach the tree walker defers the recover handler (with its named error) first, and the handler assigns the error on every recovered path; R06b: the handler's own call tree (errRecover, errorf, errFromNode, callAnnotation, Registry.Filename/LineNumber/ColNumber, NewErrFilePosf) contains no unguarded nil dereference of a field, slice bound, index or single-value type assertion; R06c: Registry.Add rejects an already-registered template name before recording it; R06d: every non-range loop reachable from a render entry is a counted loop with a fixed-sign step or a sign guard; R06e: code that runs before/outside the recover contains no explicit raise except named exceptions; R06f: user callbacks (Func.Apply, PrintDirective.Apply) are invoked only under a recover. R02e/R02f (shared with C02): callee state and unconditional param binding, on which the termination of recursive templates with inherited data rests. R05i: the string helper cuts a unicode escape only after testing the bound. R06c covers every table of the registry that its look-up functions read. R05k: the scanner's character predicates do not fault on the end-of-input sentinel; R19h: no position look-up selects a file by name. R06g: no static call cycle among the methods of the scalar value types; R06h: constant-position reads in the root package (the globals reader) are guarded. R06i: the tree walker is never handed a node variable that may still be unset (forward may-analysis on the CFG).",
+		Rules:      []func(*Ctx){ruleR06a, ruleR06b, ruleR06c, ruleR06d, ruleR06e, ruleR06f, ruleR02e, ruleR05i, ruleR05k, ruleR19h, ruleR06g, ruleR06i, ruleR06j, func(c *Ctx) { ruleConstIndexGuards(c, "R06h", "", 0) }},
+		Explain:    "R06a: every exported soyhtml entry that can reach the tree walker defers the recover handler (with its named error) first, and the handler assigns the error on every recovered path; R06b: the handler's own call tree (errRecover, errorf, errFromNode, callAnnotation, Registry.Filename/LineNumber/ColNumber, NewErrFilePosf) contains no unguarded nil dereference of a field, slice bound, index or single-value type assertion; R06c: Registry.Add rejects an already-registered template name before recording it; R06d: every non-range loop reachable from a render entry is a counted loop with a fixed-sign step or a sign guard; R06e: code that runs before/outside the recover contains no explicit raise except named exceptions; R06f: user callbacks (Func.Apply, PrintDirective.Apply) are invoked only under a recover. R02e/R02f (shared with C02): callee state and unconditional param binding, on which the termination of recursive templates with inherited data rests. R05i: the string helper cuts a unicode escape only after testing the bound. R06c covers every table of the registry that its look-up functions read. R05k: the scanner's character predicates do not fault on the end-of-input sentinel; R19h: no position look-up selects a file by name. R06g: no static call cycle among the methods of the scalar value types; R06h: constant-position reads in the root package (the globals reader) are guarded. R06i: the tree walker is never handed a node variable that may still be unset (forward may-analysis on the CFG). R06j: a Tofu keeps no collection of its own besides the registry it views.",
 		NotDecided: "data-bounded recursion (excluded by the property); faults inside user callbacks beyond the recover wrapper; exhaustion of memory by legitimately large data.",
 		Assumes:    []string{"fmt recovers panics raised by String()/Error() methods it calls", "positions stored in parse-tree nodes are non-negative"},
 	})
@@ -100,8 +100,8 @@ func init() {
 		Rules: []func(*Ctx){ruleR13a, ruleR13b, func(c *Ctx) { runEffects(c, "R13c", compileEntries, true, nil) },
 			func(c *Ctx) {
 				runEffects(c, "R13d", renderEntries, false, map[string]string{"(soyhtml.scope).set mapupdate": "scope-frame typestate (R08b)"})
-			}, ruleR10g, ruleR08d, ruleR19h, ruleR13f, ruleR13g, ruleR13h, ruleR19n},
-		Explain:    "R13a: every range over a map in the functions reachable from compile, JS generation and render entries (plus every String() of ast/data/parse) is order-insensitive: it only stores under the range key, updates the element itself, counts, tests existence, or collects into a slice that is sorted before use; R13b: no reachable read of clock, environment or random source (randomInt excepted by specification); R13c: no package-state write on the compile side (so one compile cannot influence the next); R13d: generating JavaScript or rendering does not modify the compiled bundle (C08's effect analysis), so a second generation from the same registry emits the same bytes. Sorting counts only when it is a total order on the elements (sort.Strings/Ints/Float64s, slices.Sort, or sort.Slice comparing the elements themselves). R10g: the id computation has no input but the message node. R08d: no pooled or otherwise shared library object is used while rendering; R19h: the registry selects nothing by (non-unique) file name, so results do not depend on the order files were added. R13f: no value whose elements are pointers without a String method is formatted into a message; R13g: the bundle builder adopts no collection of its caller. R13h: no goroutine literal of the root package assigns a captured variable (first-error-wins races). R19n: no goroutine literal in a loop reads the loop's variables.",
+			}, ruleR10g, ruleR08d, ruleR19h, ruleR13f, ruleR13g, ruleR13h, ruleR13i, ruleR06j, ruleR19n},
+		Explain:    "R13a: every range over a map in the functions reachable from compile, JS generation and render entries (plus every String() of ast/data/parse) is order-insensitive: it only stores under the range key, updates the element itself, counts, tests existence, or collects into a slice that is sorted before use; R13b: no reachable read of clock, environment or random source (randomInt excepted by specification); R13c: no package-state write on the compile side (so one compile cannot influence the next); R13d: generating JavaScript or rendering does not modify the compiled bundle (C08's effect analysis), so a second generation from the same registry emits the same bytes. Sorting counts only when it is a total order on the elements (sort.Strings/Ints/Float64s, slices.Sort, or sort.Slice comparing the elements themselves). R10g: the id computation has no input but the message node. R08d: no pooled or otherwise shared library object is used while rendering; R19h: the registry selects nothing by (non-unique) file name, so results do not depend on the order files were added. R13f: no value whose elements are pointers without a String method is formatted into a message; R13g: the bundle builder adopts no collection of its caller. R13h: no goroutine literal of the root package assigns a captured variable (first-error-wins races). R19n: no goroutine literal in a loop reads the loop's variables. R13i: a Bundle holds sources, not parsed trees; R06j: a Tofu keeps no per-template objects.",
 		NotDecided: "insertion-order semantics (which of two files defining a name wins, which of several independent errors is reported first).",
 		Assumes:    []string{"library functions listed as pure do not depend on map order", "VTA call graph for reachability"},
 	})
@@ -122,12 +122,14 @@ func init() {
 func init() {
 	register(&propSpec{
 		ID: "C14",
-		Rules: []func(*Ctx){ruleR14, ruleR14b, ruleR14d, ruleR14e, ruleR14g, ruleR08d, ruleR15f, ruleR15h, func(c *Ctx) {
+		Rules: []func(*Ctx){ruleR14, ruleR14b, ruleR14d, ruleR14e, ruleR14g, ruleR14h, func(c *Ctx) {
+			ruleFormatArgs(c, "R14i", []string{"soyjs"}, 5, "text already generated (an escaped key with a '%' in it) is read as formatting verbs, so the generated script is malformed or names another key")
+		}, ruleR08d, ruleR15f, ruleR15h, func(c *Ctx) {
 			runEffects(c, "R14f", renderEntries, false, map[string]string{"(soyhtml.scope).set mapupdate": "scope-frame typestate (R08b)"})
 		}},
-		Explain:    "R14: SSA taint over every function of soyjs with parameter summaries to a fixpoint: values loaded from the free-text fields (raw text, string literal values, map-literal keys, css suffix, message html tags, catalogue text, file name) must reach the output (Writer.Write, fmt.Fprint*, JSWriter.Write, the generator's own js/jsln) only through text/template.JSEscape / JSEscapeString. R14b: free text is not cut at byte offsets before it is escaped; R14c: the generator never reads StringNode.Quoted. strconv.Quote is not accepted as a JavaScript escaper. R14d: no position inside a name is recovered by searching the name for one of its own pieces. R14e: Generator.WriteFile takes the file node from the registry's current file list on every call. R14f: generating JavaScript writes into no shared tree node or data (the effect analysis of C08 over the generator's entries). R14g: the Generator stores nothing between calls; R08d: no pool or other shared state in the generator; R15f/R15h: raw text reaches the generator byte for byte.",
+		Explain:    "R14: SSA taint over every function of soyjs with parameter summaries to a fixpoint: values loaded from the free-text fields (raw text, string literal values, map-literal keys, css suffix, message html tags, catalogue text, file name) must reach the output (Writer.Write, fmt.Fprint*, JSWriter.Write, the generator's own js/jsln) only through text/template.JSEscape / JSEscapeString. R14b: free text is not cut at byte offsets before it is escaped; R14c: the generator never reads StringNode.Quoted. strconv.Quote is not accepted as a JavaScript escaper. R14d: no position inside a name is recovered by searching the name for one of its own pieces. R14e: Generator.WriteFile takes the file node from the registry's current file list on every call. R14f: generating JavaScript writes into no shared tree node or data (the effect analysis of C08 over the generator's entries). R14g: the Generator stores nothing between calls; R08d: no pool or other shared state in the generator; R15f/R15h: raw text reaches the generator byte for byte. R14h: the library's JavaScript escaper is called only inside the function that encodes unprintable characters beyond U+FFFF itself; R14i: no printf-like call of the generator gets generated text as its format.",
 		NotDecided: "syntactic validity of the whole generated file; one function per template under its qualified name; identifier-class fields (template, parameter and variable names), which the scanner restricts to letters, digits and underscore.",
-		Assumes:    []string{"text/template.JSEscape is a correct JavaScript string escaper (it escapes quotes, backslash, <, >, &, = and every non-printable rune including U+2028/9)"},
+		Assumes:    []string{"text/template.JSEscape is a correct JavaScript string escaper for characters up to U+FFFF and for printable ones beyond (it escapes quotes, backslash, <, >, &, = and every non-printable rune including U+2028/9); it is not for unprintable characters beyond U+FFFF, which the generator encodes itself (R14h)"},
 	})
 }
 
